@@ -319,6 +319,27 @@ fn c20_cands(rng: &mut crate::rng::Rng, _pre: &crate::snapshot::Snap, _t: Tier) 
         let s: String = (0..4).map(|_| char::from_u32(rng.range(0x20, 0xff)).unwrap()).filter(|c| !('\u{7f}'..='\u{9f}').contains(c)).collect();
         v.push(Cand { ops: vec![Op::Api(DefineCharset(code.into(), mode.into())), Op::Api(if rng.bool() { ShiftOut } else { ShiftIn }), Op::Api(Draw(s))] });
     }
+    // DECSC, k designations, draw, DECRC, k designations, draw: counters, epochs or stamps that
+    // are restored together with the tables must not make a later state look like an earlier one
+    for _ in 0..4 {
+        let k = 1 + rng.below(3);
+        let des = |rng: &mut crate::rng::Rng| Op::Api(DefineCharset((*rng.pick(&["B", "0", "U", "V"])).into(), (*rng.pick(&["(", ")"])).into()));
+        let mut ops = vec![Op::Api(SaveCursor)];
+        for _ in 0..k {
+            ops.push(des(rng));
+        }
+        if rng.below(3) == 0 {
+            ops.push(Op::Api(if rng.bool() { ShiftOut } else { ShiftIn }));
+        }
+        let s: String = (0..2).map(|_| *rng.pick(&['q', 'x', '~', 'a', '\u{e9}', '_'])).collect();
+        ops.push(Op::Api(Draw(s.clone())));
+        ops.push(Op::Api(RestoreCursor));
+        for _ in 0..k {
+            ops.push(des(rng));
+        }
+        ops.push(Op::Api(Draw(s)));
+        v.push(Cand { ops });
+    }
     // long strings in ONE draw() call (only the API can do that): all-ASCII including the C0
     // range, all below 256, and mixed with a character above 255 - whatever a bulk path keys on
     // (length, is_ascii, "printable"), each character still goes through the table in use
